@@ -5,6 +5,8 @@ model's type tags are exactly those strings.
 -/
 import BytomModel.Model.Entry
 import BytomModel.Gen.HashFields
+import BytomModel.Model.MerkleShape
+import BytomModel.Gen.MerkleShape
 
 namespace BytomModel.Ties.C03
 open BytomModel.Entry
@@ -17,5 +19,18 @@ theorem hashed_structs_tie : hashedStructs = BytomModel.Gen.HashFields.structs :
 
 /-- the model's type tags are the `typ()` strings of the code -/
 theorem type_tags_tie : modelTags = BytomModel.Gen.HashFields.entries.map (fun e => ascii e.2.1) := by decide
+
+/-- the block hash reaches the transaction ids through `merkleRoot`: it is the single plain
+    recursion the model mirrors (same cases, same calls in the same order) … -/
+theorem merkle_root_shape_tie :
+    BytomModel.MerkleShape.merkleRootCases = BytomModel.Gen.MerkleShape.merkleRootCases ∧
+    BytomModel.MerkleShape.merkleRootCalls = BytomModel.Gen.MerkleShape.merkleRootCalls ∧
+    BytomModel.MerkleShape.buildMerkleTreeCases = BytomModel.Gen.MerkleShape.buildMerkleTreeCases ∧
+    BytomModel.MerkleShape.buildMerkleTreeCalls = BytomModel.Gen.MerkleShape.buildMerkleTreeCalls := by decide
+
+/-- … with no other tree-hashing helper in the file, no goroutines and no `sync` -/
+theorem merkle_no_concurrency_tie :
+    BytomModel.MerkleShape.funcs = BytomModel.Gen.MerkleShape.funcs ∧
+    BytomModel.Gen.MerkleShape.goStatements = 0 ∧ BytomModel.Gen.MerkleShape.syncImports = 0 := by decide
 
 end BytomModel.Ties.C03
